@@ -80,6 +80,7 @@ TStep ==
    /\ Verd(graph => AllObj(post, exp, LAMBDA p, e : (p.k = "field" /\ e.vx) => p.vx /\ p.arr = e.arr), "DF_Values")
    /\ Verd(graph => AllObj(post, exp, LAMBDA p, e : p.k = "field" => p.lab = e.lab /\ (e.mx => p.map = e.map)), "DF_Labels")
    /\ Verd(graph => AllObj(post, exp, LAMBDA p, e : p.k = "field" => p.vo = e.vo), "DF_OwnValidity")
+   /\ Verd(graph => AllObj(post, exp, LAMBDA p, e : p.k = "field" => p.ao = e.ao), "DF_OwnArray")
    (* the clauses of the properties on the observed states *)
    /\ (graph => LET obs == Adopt(post, exp, TRUE) IN
                 \A nm \in ClauseNames : Verd(ClauseHolds(nm, heap, roots, obs, rpost, c), nm))
@@ -87,6 +88,7 @@ TStep ==
    /\ Verd(sane => S_RegionNormal(post), "DF_RegionNormal")
    /\ Verd((sane /\ S_SubregionsWellFormed(heap)) => S_SubregionsWellFormed(post), "DF_SubregionsWellFormed")
    /\ Verd(sane => (S_OwnValidity(heap) => S_OwnValidity(post)), "DF_OwnValidity")
+   /\ Verd(sane => (S_OwnArray(heap) => S_OwnArray(post)), "DF_OwnArray")
    /\ Verd(sane => S_Labels(post), "DF_LabelsWellFormed")
    /\ heap' = Adopt(post, exp, graph)
    /\ roots' = rpost
